@@ -7,7 +7,8 @@ pid = name.split("-")[0]
 pids = sys.argv[3].split(",") if len(sys.argv) > 3 else [pid]
 d = os.path.join(ROOT, "seeded", name)
 assert subprocess.run("git -C /repo status --porcelain", shell=True, capture_output=True).stdout.strip() == b"", "/repo not clean"
-assert subprocess.run("git -C /repo apply %s/patch.diff" % d, shell=True).returncode == 0
+if subprocess.run("git -C /repo apply %s/patch.diff" % d, shell=True).returncode != 0:
+    assert subprocess.run("cd /repo && patch -p1 --fuzz=3 --no-backup-if-mismatch < %s/patch.diff" % d, shell=True).returncode == 0, "seed no longer applies"
 out = {}
 try:
     for p in pids:
